@@ -281,10 +281,10 @@ func (cmd *mainCmd) Run(args []string) error {
 		filename := sourcePath.Absolute
 		content, err := os.ReadFile(filename)
 		if err != nil {
-			// Stop here, but don't lose the errors recorded for
-			// the files processed so far.
+			// Report it and carry on: the other files can still
+			// be patched, and none of them is left out silently.
 			errors = append(errors, err)
-			break
+			continue
 		}
 		f, err := parser.ParseFile(fset, filename, content /* src */, parser.AllErrors|parser.ParseComments)
 		if err != nil {
